@@ -217,8 +217,19 @@ SANITIZERS = {
 }
 
 
+# VERIF_COV=<dir>: coverage mode (tools/coverage.py): plain builds become -Cinstrument-coverage builds on the nightly toolchain (whose
+# llvm-cov / llvm-profdata are used to read the profiles), every process started by a check writes its profile into <dir>
+COV_DIR = os.environ.get('VERIF_COV')
+if COV_DIR:
+    os.makedirs(COV_DIR, exist_ok=True)
+    os.environ['LLVM_PROFILE_FILE'] = os.path.join(COV_DIR, '%p-%8m.profraw')
+    SANITIZERS['cov'] = (['+nightly'], [], '-Cinstrument-coverage', 'debug')
+
+
 def build_workspace(wdir, profile='dbg', features_env=None, timeout=3600, log=None, sanitizer=None):
     """cargo build --keep-going. Returns (bins: {member: path or None}, stderr)."""
+    if COV_DIR and not sanitizer:
+        sanitizer, profile = 'cov', 'cov'
     tdir = os.path.join(TARGET, profile)
     os.makedirs(tdir, exist_ok=True)
     env = cargo_env({'CARGO_TARGET_DIR': tdir})
